@@ -154,9 +154,13 @@ Definition linearise_doubled (t : rtree) : list did :=
 Definition is_ket (d : did) : bool := match d with DN _ Ket => true | _ => false end.
 Definition contraction_order (t : rtree) : list did := filter is_ket (linearise_doubled t).
 
-(* the same filter as the code applies it, on the names: match(".*"+ket_suffix, name) *)
-Definition contraction_order_s (root_name ksuf bsuf : string) (names : nat -> string) (t : rtree) : list did :=
-  filter (fun d => is_ket_s ksuf (name_of root_name ksuf bsuf names d)) (linearise_doubled t).
+(* the same filter as the code applies it, on the names.  bug_regex = true: the code as it
+   stands, match(".*"+ket_suffix, name), which accepts every name CONTAINING the suffix;
+   bug_regex = false: the repaired filter name.endswith(ket_suffix) *)
+Definition ket_filter_s (bug_regex : bool) (ksuf s : string) : bool :=
+  if bug_regex then is_ket_s ksuf s else ends_with ksuf s.
+Definition contraction_order_s (bug_regex : bool) (root_name ksuf bsuf : string) (names : nat -> string) (t : rtree) : list did :=
+  filter (fun d => ket_filter_s bug_regex ksuf (name_of root_name ksuf bsuf names d)) (linearise_doubled t).
 
 (* ---- the calls from_ttns makes ------------------------------------------------------ *)
 (* add_symmetric_children_to_parent(child_id, ket_tensor, bra_tensor, child_leg, parent_id,
